@@ -44,6 +44,7 @@ PROBES = [
     "abort_as_KeyboardInterrupt", "recompute_after_other_engine_used_same_objects",
     "fits_budget_exactly", "mixed_fresh_and_used_labels", "nodes_called_with_same_list_object",
     "layers_ge_4", "all_labels_at_one_position", "list_edited_in_place_and_handed_over_again",
+    "subset_of_used_labels",
 ]
 
 RULE = {
@@ -117,7 +118,8 @@ def gen_labels(rng, big):
     else:
         n = rng.randrange(14, 31)
     layout = rng.choice(["dense", "ties", "half", "spread", "mixed", "dense", "ties", "one"])
-    wpal = rng.choice([[10, 20, 50], [50], [5.5, 12.5, 40], [3, 7.25, 33.3], [1, 2, 3], [60, 120, 300]])
+    wpal = rng.choice([[10, 20, 50], [50], [5.5, 12.5, 40], [3, 7.25, 33.3], [1, 2, 3], [60, 120, 300],
+                       [24.9, 28.1, 18.3, 17.3], [0.1, 0.7, 1.3]])
     base = rng.choice([0, 0, 100, -50, 250.5])
     span = rng.choice([20, 100, 400, 1000])
     pos2w = {}
@@ -173,7 +175,28 @@ def gen_opts(rng, labels, full=True):
         o["algorithm"] = rng.choice(["overlap", "overlap", "simple", "none"])
     if rng.random() < 0.15:
         o["lineSpacing"] = rng.choice([0, 2, 5])
-    if rng.random() < 0.08:
+    if rng.random() < 0.05:
+        # accepted (metrics read it) but without influence on the layering: the
+        # layer width is always derived from the two bounds
+        o["layerWidth"] = rng.choice([50, 500, 960])
+    if rng.random() < 0.06:
+        # boundary configuration in floating point: the budget is the required
+        # width as the library itself sums it (labels sorted by position), give
+        # or take rounding - one ulp decides between one layer and two, so the
+        # decision must not depend on anything but the labels and options
+        lo = o.get("minPos", 0)
+        if lo is not None:
+            dens = rng.choice([1, 1, 0.85, 0.75])
+            sp = o.get("nodeSpacing", 3)
+            tot = 0
+            for _, w in sorted(labels, key=lambda t: t[0]):
+                tot += w + sp
+            tot -= sp
+            if tot > 0:
+                o["density"] = dens
+                o["maxPos"] = lo + tot / dens
+                o["algorithm"] = rng.choice(["overlap", "simple"])
+    elif rng.random() < 0.08:
         # boundary configuration: the labels fit the density budget *exactly*
         lo = o.get("minPos", 0)
         if lo is not None:
@@ -248,7 +271,7 @@ def gen_plan(rng, tier):
         elif r < 0.5:
             s = rng.randrange(nsets)
             mode = rng.choice(["fresh", "fresh", "same", "permute", "permute", "handover", "mixed", "reversed",
-                               "same_list", "inplace", "inplace"])
+                               "same_list", "inplace", "inplace", "subset", "subset"])
             ops.append(["set_labels", e, s, mode, rng.randrange(1 << 30)])
             engine_set[e] = s
         elif r < 0.6:
@@ -587,7 +610,7 @@ def _run(plan):
         if len(got) != len(labels) or {id(x) for x in got} != {id(x) for x in labels}:
             c04.append({"property": "C04", "class": "engine_lost_labels", "step": step,
                         "detail": {"reported": len(got), "given": len(labels)}})
-        checkpoints.append({"step": step, "opts": dict(eng["opts"]), "set": s, "labels": plan["sets"][s],
+        checkpoints.append({"step": step, "opts": dict(eng["opts"]), "set": s, "labels": eng["spec"],
                             "observed": _observed_map(labels), "history": history,
                             "fault_config": eng.get("after_fault", False)})
         layers = f.getLayers()
@@ -597,6 +620,11 @@ def _run(plan):
             bad[1]["op"] = plan["ops"][step]
             bad[1]["history"] = history
             c04.append({"property": "C04", "class": bad[0], "step": step, "detail": bad[1]})
+            eng["clean"] = None
+        else:
+            # from here on, until somebody touches this engine or these label
+            # objects, the reported result must stay what it is (quiescence)
+            eng["clean"] = {"step": step, "observed": _observed_map(labels), "opts": dict(eng["opts"])}
         if len({n.idealPos for n in labels}) < len(labels):
             bump("probe:identical_positions")
         # label and stub tying on a target in some layer
@@ -611,7 +639,32 @@ def _run(plan):
                         break
                     seen.setdefault(t, kind)
 
+    def touch(ids, except_engine=None):
+        for e2, other in engines.items():
+            if e2 != except_engine and other.get("clean") and other.get("label_ids") and (other["label_ids"] & ids):
+                other["clean"] = None
+
+    def recheck(step):
+        for e2, eng in engines.items():
+            cl = eng.get("clean")
+            if not cl or cl["step"] >= step:
+                continue
+            bump("quiescent_rechecks")
+            labels = eng["labels"]
+            bad = check_c04(eng["force"].getLayers(), labels, effective_dist_opts(cl["opts"]), True, {})
+            if bad is not None:
+                bad[1]["op"] = plan["ops"][step]
+                bad[1]["laid_out_at_step"] = cl["step"]
+                c04.append({"property": "C04", "class": "corrupted_later:" + bad[0], "step": step, "detail": bad[1]})
+                eng["clean"] = None
+            elif _observed_map(labels) != cl["observed"]:
+                checkpoints.append({"step": step, "quiescence": True, "engine": e2, "laid_out_at_step": cl["step"],
+                                    "op": plan["ops"][step]})
+                eng["clean"] = None
+
     for step, op in enumerate(plan["ops"]):
+        if step:
+            recheck(step - 1)
         kind = op[0]
         outcome = "ok"
         if kind == "new_engine":
@@ -628,12 +681,14 @@ def _run(plan):
                 eng["force"].set_options(dict(op[2]))
                 eng["opts"].update(op[2])
                 eng["reconfigured"] = True
+                eng["clean"] = None  # an engine may legitimately drop its report on re-configuration
         elif kind == "bad_config":
             eng = engines.get(op[1])
             if eng is None:
                 outcome = "skipped"
             else:
                 bump("fault:rejected_config:configured")
+                eng["clean"] = None
                 try:
                     eng["force"].set_options(dict(op[2]))
                     outcome = "accepted"
@@ -666,12 +721,22 @@ def _run(plan):
                     objs[s] = [old if r.random() < 0.5 else new for old, new in zip(objs[s], fresh)]
                     bump("probe:mixed_fresh_and_used_labels")
                 lst = list(objs[s])
+                spec = [list(t) for t in plan["sets"][s]]
+                if mode_eff == "subset" and len(lst) > 1:
+                    # the caller drops some labels and lays the remaining objects out again
+                    r = random.Random(seed)
+                    k = max(1, int(len(lst) * r.choice([0.3, 0.5, 0.8])))
+                    keep = sorted(r.sample(range(len(lst)), k))
+                    lst = [lst[i] for i in keep]
+                    spec = [spec[i] for i in keep]
+                    bump("probe:subset_of_used_labels")
                 if mode_eff == "reversed":
                     lst.sort(key=lambda n: (n.idealPos, n.width), reverse=True)
                     eng["permuted"] = True
                 elif mode_eff == "same_list" and eng.get("last_list") is not None \
                         and eng.get("last_list_set") == s:
                     lst = eng["last_list"]  # the very same list object handed over again
+                    spec = eng["last_spec"]
                     bump("probe:nodes_called_with_same_list_object")
                 elif mode_eff == "inplace" and eng.get("last_list") is not None:
                     # the caller keeps one list object, edits it in place (here: replaces
@@ -686,6 +751,7 @@ def _run(plan):
                 elif mode_eff != "reversed":
                     eng["permuted"] = False
                 eng["last_list"] = lst
+                eng["last_spec"] = spec
                 eng["last_list_set"] = s
                 if mode_eff != "fresh" and laid_by.get(s) is not None and laid_by[s] != e:
                     bump("fault:handover:configured")
@@ -694,10 +760,13 @@ def _run(plan):
                     eng["handed_over"] = True
                 else:
                     eng["handed_over"] = False
+                eng["clean"] = None
                 eng["force"].nodes(lst)
+                eng["label_ids"] = {id(n) for n in lst}
                 eng["set"] = s
                 eng["sets_seen"].add(s)
                 eng["labels"] = list(lst)
+                eng["spec"] = spec
                 outcome = mode_eff
         elif kind in ("compute", "abort_compute", "stack_compute"):
             e = op[1]
@@ -708,6 +777,8 @@ def _run(plan):
                 s = eng["set"]
                 labels = eng["labels"]
                 f = eng["force"]
+                eng["clean"] = None
+                touch(eng["label_ids"], except_engine=e)
                 history = _stale_flags(labels, stats)
                 if eng.get("foreign_compute"):
                     history.append("other_engine_computed_same_objects")
@@ -814,7 +885,7 @@ def _run(plan):
                 elif outcome.startswith("raise:"):
                     # the reference decides whether raising is what fresh code does too
                     checkpoints.append({"step": step, "opts": dict(eng["opts"]), "set": s,
-                                        "labels": plan["sets"][s], "observed": {"raise": outcome[6:]},
+                                        "labels": eng["spec"], "observed": {"raise": outcome[6:]},
                                         "history": history, "fault_config": eng.get("after_fault", False)})
         elif kind == "stale":
             s, what, seed = op[1], op[2], op[3]
@@ -824,6 +895,7 @@ def _run(plan):
             else:
                 r = random.Random(seed)
                 changed = False
+                touch({id(n) for n in objs[s]})
                 for n in objs[s]:
                     if what in ("pos", "all") and r.random() < 0.7:
                         n.currentPos = r.choice([n.idealPos + r.randrange(-300, 300), -1e6, 12345.5])
@@ -849,6 +921,7 @@ def _run(plan):
             eff.update(dopts)
             if mode == "existing" and s in objs:
                 # only a producer of stale state: stubs/positions left on used labels
+                touch({id(n) for n in objs[s]})
                 try:
                     Distributor(dict(dopts)).distribute(list(objs[s]))
                 except Exception as ex:
@@ -874,6 +947,7 @@ def _run(plan):
         else:
             raise HarnessError("unknown op %r" % (op,))
         log.append([step, kind, outcome])
+    recheck(len(plan["ops"]))
     stats["ops"] = len(log)
     return {"checkpoints": checkpoints, "c04": c04, "stats": stats, "log": log}
 
@@ -906,6 +980,14 @@ def execute(plan):
     judged = 0
     nontrivial = False
     for cp in res["checkpoints"]:
+        if cp.get("quiescence"):
+            if not any(v["property"] == "C06" for v in violations):
+                violations.append({
+                    "property": "C06", "class": "layout_changed_without_compute", "step": min(cp["step"], len(plan["ops"]) - 1),
+                    "detail": {"engine": cp["engine"], "laid_out_at_step": cp["laid_out_at_step"],
+                               "changed_after_op": cp["op"] if cp["step"] < len(plan["ops"]) else "end of run",
+                               "note": "positions/layers of an engine's labels changed although neither the engine nor these label objects were used"}})
+            continue
         key = h64([cp["opts"], sorted(cp["labels"])])
         if key not in cache:
             cache[key] = run_isolated(_reference, {"opts": cp["opts"], "labels": cp["labels"]})
